@@ -50,11 +50,19 @@ def gen_cases(seed, tier):
                     for trained in (False, True):
                         for refit in (False, True):
                             cfgs.append(dict(backend=backend, bounded=bounded, affine=affine, dtype=dtype, trained=trained, refit=refit))
+    # bounds written as integer literals ({"x": [0, 10]}, as in the repository's own example) with no dtype given: the
+    # transform then starts from integer bound arrays
+    for backend in ("zuko", "flowjax"):
+        for bounded in ("logit", "probit"):
+            for trained in (False, True):
+                cfgs.append(dict(backend=backend, bounded=bounded, affine=True, dtype=None, trained=trained, refit=False, int_bounds=True))
+    n_plain = len(cfgs) - 8
     rng = rng_from(stream_seeds(seed, ID, 0)["scenario"])
     if tier == "quick":
-        idx = sorted(rng.choice(len(cfgs), size=16, replace=False).tolist())
+        idx = sorted(rng.choice(n_plain, size=16, replace=False).tolist())
         # make sure both back-ends and all three bounded settings appear
-        cfgs = [cfgs[i] for i in idx]
+        ib = [c for c in cfgs[n_plain:] if (c["backend"], c["bounded"], c["trained"]) in (("flowjax", "logit", False), ("zuko", "probit", True), ("flowjax", "probit", True))]
+        cfgs = [cfgs[i] for i in idx] + ib
     out = []
     for i, c in enumerate(cfgs):
         # 1-4 dimensions (above 2 flowjax inserts key-dependent permutation layers, zuko alternates its masks differently)
@@ -114,6 +122,9 @@ def build_flow(cfg, seed):
     params = ["q", "m", "z", "b"][:d]  # not in alphabetical order (HDF5 groups iterate alphabetically)
     lo, hi = np.array([-2.0, 1.0, 0.5, -7.0])[:d], np.array([3.0, 9.0, 2.5, -1.0])[:d]
     bounds = {p: (float(l), float(h)) for p, l, h in zip(params, lo, hi)}
+    if cfg.get("int_bounds"):
+        lo, hi = np.array([-2, 1, 0, -7])[:d], np.array([3, 9, 2, -1])[:d]
+        bounds = {p: [int(l), int(h)] for p, l, h in zip(params, lo, hi)}
     rng = rng_from(seed)
     if cfg["backend"] == "zuko":
         import array_api_compat.torch as xp
@@ -138,7 +149,7 @@ def build_flow(cfg, seed):
         flow = FlowJax(dims=d, key=jax.random.key(int(seed % 10000)), data_transform=dt, dtype=cfg["dtype"], flow_layers=2, nn_width=8)
         fit_kw = {"max_epochs": 2, "batch_size": 100, "show_progress": False}
     x = lo + (hi - lo) * rng.uniform(0.25, 0.75, size=(300, d))
-    npdt = np.float32 if cfg["dtype"] == "float32" else np.float64
+    npdt = np.float32 if (cfg["dtype"] == "float32" or (cfg["dtype"] is None and cfg["backend"] == "zuko")) else np.float64
     if cfg.get("refit"):
         # the same flow object is fitted twice, first to a much narrower data set (different whitening scale)
         x_first = lo + (hi - lo) * rng.uniform(0.45, 0.55, size=(300, d))
@@ -160,6 +171,10 @@ def run_case(case, workdir):
     probes = {}
     flow, params, bounds, lo, hi = build_flow(cfg, case["seed"])
     bits = 32 if cfg["dtype"] == "float32" else 64
+    if cfg["dtype"] is None:
+        # no dtype requested: both back-ends then compute in single precision (flowjax keeps float32 parameters even when
+        # jax x64 widens the arrays it returns), so these cases are judged at float32 resolution
+        bits = 32
     tol = dict(rtol=2e-4, atol=2e-4) if bits == 32 else dict(rtol=1e-8, atol=1e-8)
     if cfg["backend"] == "zuko" and bits == 64:
         # observation (DESIGN 7): with torch float64 the repo's transforms build parts of log|J| with torch.ones()/zeros() in
@@ -282,7 +297,7 @@ def run_case(case, workdir):
     return {
         "violations": V, "aborted": None, "evaluations": evaluations, "events": evaluations,
         "probes": probes, "faults_fired": {"restart": 1},
-        "nontrivial_keys": [[cfg["backend"], cfg["bounded"], cfg["affine"], cfg["dtype"], cfg["trained"], cfg.get("refit", False), cfg.get("dims", 2)]] if conclusive else [],
+        "nontrivial_keys": [[cfg["backend"], cfg["bounded"], cfg["affine"], cfg["dtype"], cfg["trained"], cfg.get("refit", False), cfg.get("dims", 2), bool(cfg.get("int_bounds"))]] if conclusive else [],
         "digest": digest_of([zs, [v["oracle"] for v in V]]),
         "sample": jsonable({"cfg": cfg, "E_Zhat": mean, "se": se, "median_ess": float(np.median(ess)), "replicates": len(zs)}),
     }
